@@ -1,5 +1,5 @@
-"""Probe: minimal independent AKAI S1000 image writer (logical model -> bytes), to confirm the format reading
-and to push solver counterexamples through the real CLI."""
+"""Independent AKAI S1000/S3000 image writer (logical model -> bytes), written from the published disk format, not from the parser.
+Used by the end-to-end obligations (C01.image, C09.image, C15.image, C16.hist, C20.ls)."""
 import struct
 
 SECT = 8192
@@ -28,13 +28,15 @@ def sample_file(name, words, rate=44100, start=0, end=None, root=60):
     return h + words
 
 
-def partition(volumes, size_sectors=64):
-    """volumes: list of (name, [(fname, ftype, filebytes, sector_list or None)], dir_sector)"""
+def partition(volumes, size_sectors=64, dir_sectors=1, dir_linked=False, vol_type=1, first_free=3):
+    """volumes: list of (name, [(fname, ftype, filebytes, order or None)], _).
+    dir_sectors / dir_linked: a volume directory of 1..2 sectors stored as a run of reserved-flag sectors or as a linked chain;
+    first_free: first sector handed out (moves everything up, e.g. to leave free sectors below)."""
     sat = [FREE] * SAT_N
     data = {}                       # sector -> bytes
     for s in range(3):
         sat[s] = RES                # header sectors (reserved run, as on real discs)
-    nxt = [3]
+    nxt = [first_free]
 
     def alloc(k):
         r = list(range(nxt[0], nxt[0] + k)); nxt[0] += k
@@ -42,8 +44,15 @@ def partition(volumes, size_sectors=64):
 
     vol_entries = b""
     for (vname, files, _unused) in volumes:
-        dsec = alloc(1)[0]
-        sat[dsec] = RES
+        dsecs = alloc(dir_sectors)
+        dsec = dsecs[0]
+        for i, d in enumerate(dsecs):
+            if dir_linked:
+                sat[d] = dsecs[i + 1] if i + 1 < len(dsecs) else EOFM
+            else:
+                sat[d] = RES
+        if not dir_linked:
+            nxt[0] += 1             # leave one free sector behind a reserved run so that the run ends there
         table = b""
         for (fname, ftype, fbytes, order) in files:
             k = max(1, -(-len(fbytes) // SECT))
@@ -54,13 +63,17 @@ def partition(volumes, size_sectors=64):
                 data[s] = fbytes[i * SECT:(i + 1) * SECT].ljust(SECT, b"\0")
                 sat[s] = secs[i + 1] if i + 1 < k else EOFM
             table += akai_str(fname) + bytes(4) + bytes([ftype]) + len(fbytes).to_bytes(3, "little") + struct.pack("<H", secs[0]) + bytes(2)
-        data[dsec] = table.ljust(SECT, b"\0")
-        vol_entries += akai_str(vname) + struct.pack("<HH", 1, dsec)
+        table = table.ljust(SECT * dir_sectors, b"\0")
+        for i, d in enumerate(dsecs):
+            data[d] = table[i * SECT:(i + 1) * SECT]
+        vol_entries += akai_str(vname) + struct.pack("<HH", vol_type, dsec)
     vol_entries = vol_entries.ljust(16 * 100, b"\0")
     hdr = struct.pack("<H", size_sectors) + b"\0\0" + MAGIC + bytes(2) + b"\x2f\x00"
     head = hdr + vol_entries + b"".join(struct.pack("<H", w) for w in sat)
     img = bytearray(size_sectors * SECT)
     img[:len(head)] = head
+    if data and max(data) >= size_sectors:
+        raise ValueError("partition too small for its files (sector %d, size %d)" % (max(data), size_sectors))
     for s, b in data.items():
         img[s * SECT:(s + 1) * SECT] = b
     return bytes(img)
